@@ -138,7 +138,7 @@ def check_stream(m, s, bs, intended):
 
 def run(oc, tier, seed, model_available, escalate):
     rng = random.Random(seed * 15485863 + 14)
-    n = 4000 if tier == "quick" else 60000
+    n = 12000 if tier == "quick" else 150000
     if escalate:
         n *= 3
     lines, impl = [], []
